@@ -17,6 +17,8 @@ Modes(n) == {<<"thr", t[1], t[2]>> : t \in Thrs}
             \cup {<<"rr", 1, 8>>, <<"rr", 3, 8>>, <<"rr", 5, 8>>, <<"rr", 1, 1>>}
             \cup {<<"lrr", 1, 4>>, <<"lrr", 1, 2>>, <<"lrr", 3, 4>>}
             \cup {<<"ans", k, 1>> : k \in 1..Max2(1, Min2(2, n - 1))}
+            \* threshold in units of the standard deviation of the series
+            \cup {<<"tstd", 1, 2>>, <<"tstd", 1, 1>>, <<"tstd", 3, 2>>}
 Masks(n, mode) == IF mode # "thr" THEN {[k \in 1..n |-> 0]}
                   ELSE {m \in [1..n -> {0, 1}] : SumSeq(m) <= 1}
 HashS(s) == SumSeq([k \in 1..Len(s) |-> (k + 1) * s[k]]) + Len(s)
